@@ -109,7 +109,7 @@ func vinList(list, x string) bool {
 var vbaseOverride = map[string]func(v reflect.Value){
 	"AlterUserScramCredentialsUpsert.Mechanism": func(v reflect.Value) { v.SetInt(int64(SCRAM_MECHANISM_SHA_256)) },
 	"AlterUserScramCredentialsDelete.Mechanism": func(v reflect.Value) { v.SetInt(int64(SCRAM_MECHANISM_SHA_512)) },
-	"OffsetFetchRequest.RequireStable":          func(v reflect.Value) { v.SetBool(false) }, // true is only encodable in v7
+	"OffsetFetchRequest.RequireStable":          func(v reflect.Value) { v.SetBool(false) },              // true is only encodable in v7
 	"JoinGroupRequest.GroupProtocols":           func(v reflect.Value) { v.Set(reflect.Zero(v.Type())) }, // deprecated twin of OrderedGroupProtocols; both set is rejected
 	"VerifRespHeader.Length":                    func(v reflect.Value) { v.SetInt(100) },
 }
@@ -117,23 +117,22 @@ var vbaseOverride = map[string]func(v reflect.Value){
 // Go int-kinded enums that travel as int8
 var vint8Types = map[string]bool{"AclOperation": true, "AclPermissionType": true, "AclResourceType": true, "AclResourcePatternType": true}
 
-
 // fields that are never slots: configuration axes, codec scratch state, decode-side aliases
 var vskip = map[string]string{
-	"RecordBatch.Version":           "magic, fixed 2",
-	"RecordBatch.Codec":             "config axis",
-	"RecordBatch.CompressionLevel":  "config axis (not on the wire)",
-	"RecordBatch.compressedRecords": "encoder cache",
-	"RecordBatch.recordsLen":        "encoder/decoder statistic",
-	"Record.length":                 "push-field scratch",
-	"Message.Version":               "config axis (magic)",
-	"Message.Codec":                 "config axis",
-	"Message.CompressionLevel":      "config axis (not on the wire)",
-	"Message.Set":                   "built by the harness for compressed wrappers",
-	"Message.compressedCache":       "encoder cache",
-	"Message.compressedSize":        "statistic",
-	"Records.recordsType":           "union tag, kept consistent",
-	"FetchResponseBlock.Records":    "decode-side alias of RecordsSet[0]",
+	"RecordBatch.Version":                      "magic, fixed 2",
+	"RecordBatch.Codec":                        "config axis",
+	"RecordBatch.CompressionLevel":             "config axis (not on the wire)",
+	"RecordBatch.compressedRecords":            "encoder cache",
+	"RecordBatch.recordsLen":                   "encoder/decoder statistic",
+	"Record.length":                            "push-field scratch",
+	"Message.Version":                          "config axis (magic)",
+	"Message.Codec":                            "config axis",
+	"Message.CompressionLevel":                 "config axis (not on the wire)",
+	"Message.Set":                              "built by the harness for compressed wrappers",
+	"Message.compressedCache":                  "encoder cache",
+	"Message.compressedSize":                   "statistic",
+	"Records.recordsType":                      "union tag, kept consistent",
+	"FetchResponseBlock.Records":               "decode-side alias of RecordsSet[0]",
 	"StickyAssignorUserDataV0.topicPartitions": "derived by decode",
 	"StickyAssignorUserDataV1.topicPartitions": "derived by decode",
 }
